@@ -184,7 +184,9 @@ Definition net_init (n : net_st) : net_st :=
 Definition growsocketlist (nrec : nat) (n : net_st) : net_st :=
   net_with n (socks n ++ repeat sock_empty (nrec - length (socks n))) (fds n).
 
-(* growpollfd(fd) *)
+(* growpollfd(fd): assert(pollpos == -1); grow; assert(nfds < fds_alloc); assert(fd < INT_MAX)
+   (the last one: descriptor INT_MAX itself is refused by an assertion, so the largest
+   descriptor that can be registered is INT_MAX - 1) *)
 Definition growpollfd (fd : nat) (n : net_st) : res net_st :=
   let* k := rdn (socks n) fd in
   match pollpos k with
@@ -195,10 +197,12 @@ Definition growpollfd (fd : nat) (n : net_st) : res net_st :=
                  then (if (fds_alloc n =? 0)%N then net_fds_initial else fds_alloc n * net_fds_factor)%N
                  else fds_alloc n in
     if (N.of_nat nfds <? alloc)%N then
-      Ok {| net_inited := net_inited n;
-            socks := upd_nth fd (sk_setpos (Some nfds) k) (socks n);
-            fds := fds n ++ [{| p_fd := fd; p_ein := false; p_eout := false; p_rev := rb_none |}];
-            fds_alloc := alloc; scanpos := scanpos n |}
+      if (Z.of_nat fd <? C_INT_MAX)%Z then
+        Ok {| net_inited := net_inited n;
+              socks := upd_nth fd (sk_setpos (Some nfds) k) (socks n);
+              fds := fds n ++ [{| p_fd := fd; p_ein := false; p_eout := false; p_rev := rb_none |}];
+              fds_alloc := alloc; scanpos := scanpos n |}
+      else AssertFail
     else AssertFail
   end.
 
@@ -556,9 +560,11 @@ Definition exec_op (o : op) (s : st) : res st :=
   let rid := next_rid (s_cl s) in
   match o with
   | OImmReg cb prio var af =>
-    if negb (af =? 0) then Ok (emit (ERegFailImm prio ENOMEM) s) else
-    let* im := imm_register cb prio rid (s_imm s) in
-    Ok (emit (ERegister rid (KImm prio)) (cl_registered rid (Some (var, HImm prio)) (set_imm s im)))
+    if prio <? PRIO_LIMIT then                                 (* the assert precedes the allocations *)
+      if negb (af =? 0) then Ok (emit (ERegFailImm prio ENOMEM) s) else
+      let* im := imm_register cb prio rid (s_imm s) in
+      Ok (emit (ERegister rid (KImm prio)) (cl_registered rid (Some (var, HImm prio)) (set_imm s im)))
+    else AssertFail
   | OImmCancel var =>
     match get_var var (vars (s_cl s)) with
     | Some {| h_rid := r; h_kind := HImm prio |} =>
